@@ -222,7 +222,7 @@ func (x *Exec) installDump(t types.Type, v interface{}, blk, off, tag int) {
 		for i := 0; i < u.NumFields() && i < len(el); i++ {
 			ft := u.Field(i).Type()
 			ftag := tag
-			if _, isArr := ft.Underlying().(*types.Array); isArr {
+			if ownBlock(ft) {
 				ftag += fieldTag(t, i)
 			}
 			x.installDump(ft, el[i], blk, off+fieldMemOffset(u, i), ftag)
